@@ -171,7 +171,12 @@ contract('main', float_mode='fp64', heap=list(FIELDS), class_module={'Parser': '
          # the only exception main lets escape is check_input's ValueError, and only for a parameter set outside the documented ranges
          raises=dict(exc=['ValueError'], when=[], ensures=["not (" + " and ".join(f"({c})" for c in ARGS_OK) + ")"]),
          call_asserts={'write_robots': ["file_name == " + NAME.format(a='AR')] + [c.replace(A_, 'AR') for c in ARGS_OK]
-                       + ["length == AR.length", "width == AR.width"]},
+                       + ["length == AR.length", "width == AR.width",
+                          # the three break probabilities reach the writers as given on the command line, each in its own place
+                          "prob_tile_break == real(AR.prob_tile_break)", "prob_robot_break == real(AR.prob_robot_break)", "prob_light_break == real(AR.prob_light_break)"],
+                       # the board is THE board of the parsed parameters: every argument of gen_rnd_board is the parsed value itself
+                       'gen_rnd_board': ["seed == AR.seed", "length == AR.length", "width == AR.width", "prob_loose_tile == real(AR.prob_loose_tile)",
+                                         "max_reward == AR.max_reward", "force_down == AR.force_down"]},
          ghost_args={}, alias_for_asserts={'AR': 'parsed_args'},
          calls_exactly=['init_parser', 'Parser.parse_args', 'check_input', 'gen_rnd_board'] + ['prob_to_str'] * 4 + ['write_robots'],
          props=['C15', 'C17', 'C11'])
